@@ -37,6 +37,13 @@ func main() {
 		id := fmt.Sprintf("%s:%s:%s#%d", tag, fn, kind, counter[key])
 		inserts = append(inserts, ins{fset.Position(pos).Offset, fmt.Sprintf("verifsched.Point(%q); ", id)})
 	}
+	// pointAfter places a point right behind a statement (same line).
+	pointAfter := func(fn, kind string, end token.Pos) {
+		key := fn + ":" + kind
+		counter[key]++
+		id := fmt.Sprintf("%s:%s:%s#%d", tag, fn, kind, counter[key])
+		inserts = append(inserts, ins{fset.Position(end).Offset, fmt.Sprintf("; verifsched.Point(%q)", id)})
+	}
 	var walkBody func(fn string, list []ast.Stmt)
 	var walkStmt func(fn string, s ast.Stmt)
 	kindOf := func(s ast.Stmt) string {
@@ -151,6 +158,11 @@ func main() {
 		for _, s := range list {
 			if k := kindOf(s); k != "" {
 				point(fn, k, s.Pos())
+				if k == "cancel" {
+					// also behind the call: what the goroutine that cancelled a context does next happens while the
+					// goroutines woken by the cancellation are already running
+					pointAfter(fn, "cancelled", s.End())
+				}
 			}
 			walkStmt(fn, s)
 		}
